@@ -48,11 +48,17 @@ def harness_params(f):
 
 
 def _worker(job):
-    prop, hname, tier, budget = job
+    prop, hname, tier, budget, case_idx = job
     t0 = time.time()
     try:
         I, reg = build(prop)
         h = reg.harnesses[hname]
+        case = driver.MISSING
+        label = hname
+        if case_idx is not None:
+            from pyvc import tables
+            case = getattr(tables, h["cases"])(REPO)[case_idx]
+            label = "%s[%s]" % (hname, case.get("id", case_idx))
         summaries = {}
         for sname in h["uses"]:
             s = reg.summaries[sname]
@@ -63,9 +69,9 @@ def _worker(job):
             cls = lc["cls"]
             loops[(lc["target"], lc["ordinal"])] = (lc["header"], I.getattr_(cls, "havoc"), I.getattr_(cls, "inv"))
         ex = driver.Explorer(I, prove_timeout_ms=int((h["timeout"] or budget) * 1000))
-        res = ex.run_harness(hname, h["func"], harness_params(h["func"]), summaries, loops)
+        res = ex.run_harness(hname, h["func"], harness_params(h["func"]), summaries, loops, case)
         out = {
-            "harness": hname, "prop": prop, "target": h["target"], "proves": h["proves"], "note": h["note"],
+            "harness": label, "base_harness": hname, "case": case_idx, "cases_fn": h["cases"], "case_desc": (case.get("example") if isinstance(case, dict) else None), "prop": prop, "target": h["target"], "proves": h["proves"], "note": h["note"],
             "paths": res.paths, "completed_paths": res.completed_paths, "vcs": res.vcs,
             "time": res.time, "solver_time": res.solver_time, "error": res.error, "covers": res.covers,
             "obligations": {k: {"status": v["status"], "vcs": v["vcs"], "time": v["time"], "solvers": sorted(v["solvers"])}
@@ -82,7 +88,7 @@ def _worker(job):
         }
         return out
     except Exception as e:
-        return {"harness": hname, "prop": prop, "error": ("crash", "%s: %s\n%s" % (type(e).__name__, e, traceback.format_exc())),
+        return {"harness": hname, "base_harness": hname, "case": case_idx, "prop": prop, "module_file": None, "error": ("crash", "%s: %s\n%s" % (type(e).__name__, e, traceback.format_exc())),
                 "obligations": {}, "failures": [], "time": time.time() - t0, "solver_time": 0, "vcs": 0, "paths": 0,
                 "completed_paths": 0, "covers": {}, "used_summaries": [], "reached": [], "samples": [], "hashes": {},
                 "uses": [], "loops": [], "used_loop_contracts": [], "target": None, "proves": None, "note": "", "known_reproduced": []}
@@ -153,7 +159,13 @@ def run_property(prop, spec, args):
             continue
         if args.only and args.only != hname:
             continue
-        jobs.append((prop, hname, tier, budget))
+        if h["cases"]:
+            from pyvc import tables
+            n = len(getattr(tables, h["cases"])(REPO))
+            for ci in range(n):
+                jobs.append((prop, hname, tier, budget, ci))
+        else:
+            jobs.append((prop, hname, tier, budget, None))
     results = []
     if jobs:
         if args.j > 1 and len(jobs) > 1:
@@ -257,7 +269,7 @@ def report(prop, spec, args, seed, results, extra, t0):
                 undecided.append("%s: solver returned unknown (%s)" % (full, f["detail"]))
                 continue
             rp = os.path.join(VERIF, "replays", "%s_%s_%s.json" % (prop, r["harness"], re.sub(r"[^A-Za-z0-9_.-]", "_", f["name"])))
-            doc = {"property": prop, "harness": r["harness"], "sidecar": r["module_file"], "obligation": full,
+            doc = {"property": prop, "harness": r["base_harness"], "case": r["case"], "cases": r.get("cases_fn"), "sidecar": r["module_file"], "obligation": full,
                    "obligation_name": f["name"], "model": f["model"], "uses": r["uses"], "loops": r["loops"],
                    "solver": f["solver"], "solver_output": f["detail"], "location": f["loc"], "kind": "harness"}
             json.dump(doc, open(rp, "w"), indent=1, default=str)
@@ -275,7 +287,7 @@ def report(prop, spec, args, seed, results, extra, t0):
                 continue
             if o.get("known") and o["known"] in known_ids:
                 known_lines.append(o["known"])
-                n_dis += 0
+                n_ob -= 1  # reported as a known finding, not counted as an obligation of the proof
                 continue
             if o["status"] == "unknown":
                 undecided.append("%s: %s" % (full, o.get("detail", "")))
